@@ -264,3 +264,41 @@ def canary(env):
     A, b = S_.calls[0]
     r, J = S_.stacked()
     env.eq('rhs without weight', b.reshape(-1), -r)
+
+
+@obligation('C07.corrector_before_weight', functions=[f'{OPT}:GaussNewton.step', f'{OPT}:LevenbergMarquardt.step'], max_paths=16)
+def corrector_order(env):
+    """R and J are first passed through the configured corrector (per residual), then weighted"""
+    T = env.T
+    for cls_name in ('GaussNewton', 'LevenbergMarquardt'):
+        S_ = Setup(env, [(1, 2), (3, 1)], [('p', 'euclid')])
+        seen = []
+        class Corr(T.nn.Module):
+            def __init__(self, k): super().__init__(); self.k = k
+            def forward(self, R, J):
+                seen.append((self.k, R.shape, J.shape))
+                return R * (self.k + 1), J * (self.k + 2)
+        cls = getattr(S_.optm, cls_name)
+        kw = dict(solver=S_.solver, corrector=[Corr(1), Corr(4)])
+        if cls_name == 'LevenbergMarquardt':
+            class Strategy:
+                defaults = {'damping': Q(1, 100) if env.sym else 0.01}
+                def update(self, pg, *a, **k): pass
+            kw.update(strategy=Strategy(), reject=0)
+        opt = cls(S_.model, **kw)
+        S_.install(opt)
+        object.__setattr__(opt.model, 'loss', lambda *a, **k: T.tensor(0) if env.sym else T.zeros(()))
+        W = [sym_tensor(env, f'Wa{cls_name}', (2, 2)), sym_tensor(env, f'Wb{cls_name}', (1,))]
+        opt.step(None, weight=W)
+        A, b = S_.calls[0]
+        env.holds(f'{cls_name}: corrector k is applied to residual k only, once', [s[0] for s in seen] == [1, 4])
+        rows = []; rs = []
+        for i, (x, k) in enumerate(zip(S_.R, (1, 4))):
+            m = x.numel()
+            rows.append(T.cat([blk.reshape(m, -1) for blk in S_.J[i]], 1) * (k + 2)); rs.append(x.reshape(-1) * (k + 1))
+        Jc, rc = T.cat(rows, 0), T.cat(rs, 0)
+        Wm = S_.weight_matrix(W)
+        if cls_name == 'GaussNewton':
+            env.eq('GN: solver sees W Jc and -W Rc of the corrected residuals', T.cat([A, b], -1), T.cat([Wm @ Jc, -(Wm @ rc).unsqueeze(-1)], -1))
+        else:
+            env.eq('LM: rhs is -Jc^T W Rc of the corrected residuals', b.reshape(-1), -(Jc.transpose(-1, -2) @ Wm @ rc))
